@@ -454,6 +454,21 @@ type trkRepo struct {
 	followed  map[string]bool // manifests whose references have been taken into the protected set
 }
 
+// refsAs is what the stored bytes reference when they are read as the media type a referring descriptor
+// declares for them, where that is not the media type they are stored with (F42: the same bytes can be stored
+// under another media type while no tag leads to them; whoever follows the reference reads them as declared).
+// Bytes that do not decode as that type, and types ocimem cannot look inside, reference nothing.
+func (m trkManifest) refsAs(mt string) []refTok {
+	if mt == m.mt {
+		return nil
+	}
+	kind, refs := parseDecTokens(strings.Split(decodeManifest(mt, m.data), " "))
+	if kind != "refs" {
+		return nil
+	}
+	return refs
+}
+
 // protect adds everything currently reachable from a tag to the protected set,
 // following the references a digest was EVER stored with (so that re-storing the
 // same bytes under another media type cannot unprotect anything).
@@ -467,29 +482,34 @@ func (r *trkRepo) protect() {
 	// A digest is protected whatever it was referenced as (the registry compares digests only), but it
 	// is looked INTO only where it is referenced as a manifest: a layer that happens to carry a
 	// manifest's bytes is a blob, and what those bytes mention is not referenced through it.
-	var visit func(d string, asManifest bool)
-	visit = func(d string, asManifest bool) {
+	// declared is the media type the reference gives the manifest (a tag: the one it was pushed with).
+	var visit func(d string, asManifest bool, declared string)
+	visit = func(d string, asManifest bool, declared string) {
 		r.protected[d] = true
-		if !asManifest || r.followed[d] {
+		key := d + "\x00" + declared
+		if !asManifest || r.followed[key] {
 			return
 		}
-		r.followed[d] = true
+		r.followed[key] = true
 		// what the manifest references under the media type it has NOW, while reachable from a tag, is
-		// retained from now on (references it had under another type while no tag led to it are not)
+		// retained from now on, and so is what it references under the media type the reference that leads to
+		// it declares (F42); references it had under another type while no tag led to it, and that no
+		// reference leading to it declares, are not
 		if m, ok := r.manifests[d]; ok {
 			r.refsEver[d] = append(r.refsEver[d], m.refs...)
+			r.refsEver[d] = append(r.refsEver[d], m.refsAs(declared)...)
 		}
 		for _, ref := range r.refsEver[d] {
 			switch ref.kind {
 			case 0:
-				visit(ref.digest, false)
+				visit(ref.digest, false, "")
 			case 1:
-				visit(ref.digest, true)
+				visit(ref.digest, true, ref.mediaType)
 			} // a subject may dangle and is not retained
 		}
 	}
 	for _, d := range r.tags {
-		visit(string(d.Digest), true)
+		visit(string(d.Digest), true, d.MediaType)
 	}
 }
 
@@ -540,31 +560,34 @@ func parseDecTokens(ts []string) (kind string, refs []refTok) {
 // stored manifests' references.
 func (r *trkRepo) reachable(target string) bool {
 	seen := map[string]bool{}
-	var visit func(d string) bool
-	visit = func(d string) bool {
+	// declared is the media type the reference gives the manifest: it is followed under the media type it
+	// is stored with and under the declared one (F42)
+	var visit func(d, declared string) bool
+	visit = func(d, declared string) bool {
 		if d == target {
 			return true
 		}
-		if seen[d] {
+		key := d + "\x00" + declared
+		if seen[key] {
 			return false
 		}
-		seen[d] = true
+		seen[key] = true
 		m, ok := r.manifests[d]
 		if !ok {
 			return false
 		}
-		for _, ref := range m.refs {
+		for _, ref := range append(append([]refTok(nil), m.refs...), m.refsAs(declared)...) {
 			if ref.digest == target {
 				return true
 			}
-			if ref.kind != 0 && visit(ref.digest) {
+			if ref.kind != 0 && visit(ref.digest, ref.mediaType) {
 				return true
 			}
 		}
 		return false
 	}
 	for _, d := range r.tags {
-		if visit(string(d.Digest)) {
+		if visit(string(d.Digest), d.MediaType) {
 			return true
 		}
 	}
